@@ -208,6 +208,7 @@ PROPS["C02"] = {
 
 PROPS["C06"] = {
     "pkg": "p06",
+    "needs_evy": True,
     "level": "exploration",
     "level_text": "Round-trip search: for ~4*10^4 (quick) / ~8*10^5 (thorough) accepted source texts the formatter's output is re-lexed "
                   "(the sequence of non-whitespace tokens incl. comments must be unchanged: numbers by value, strings by decoded value), "
